@@ -13,6 +13,7 @@ from __future__ import annotations
 
 import argparse
 import collections
+import faulthandler
 import hashlib
 import json
 import multiprocessing
@@ -150,15 +151,24 @@ _PROP = None
 _DEADLINE = None
 
 
+GRACE_S = float(os.environ.get("VERIF_GRACE_S", "300"))  # a shard still running this long after the budget is stuck
+
+
 def _worker(args):
     idx, shard = args
     ctx = Ctx(idx, _DEADLINE)
+    # watchdog: shards poll ctx.out_of_time() between cases; one that is still running GRACE_S after the budget sits
+    # in a call that does not return (a non-terminating loop in the code under test or in the harness). Dump where,
+    # and die: the parent reports a harness fault (exit 2) instead of hanging for ever.
+    faulthandler.dump_traceback_later(max(1.0, _DEADLINE - time.time()) + GRACE_S, exit=True)
     try:
         _PROP.run_shard(shard, ctx)
     except HarnessFault as e:
         return dict(fault="HarnessFault: %s" % e, shard=idx)
     except BaseException:
         return dict(fault=traceback.format_exc(), shard=idx)
+    finally:
+        faulthandler.cancel_dump_traceback_later()
     return ctx.result()
 
 
@@ -174,9 +184,15 @@ def run_shards(prop, shards, budget_s):
     if NPROC <= 1 or len(items) == 1:
         results = [_worker(it) for it in items]
     else:
+        from concurrent.futures import ProcessPoolExecutor
+        from concurrent.futures.process import BrokenProcessPool
+
         ctxm = multiprocessing.get_context("fork")
-        with ctxm.Pool(min(NPROC, len(items))) as pool:
-            results = list(pool.imap_unordered(_worker, items, chunksize=1))
+        try:
+            with ProcessPoolExecutor(min(NPROC, len(items)), mp_context=ctxm) as pool:
+                results = list(pool.map(_worker, items))
+        except BrokenProcessPool:
+            raise HarnessFault("a worker process died (killed, or stuck in one call for more than %d s past the budget: see the traceback above); nothing is concluded from this run" % GRACE_S)
     results.sort(key=lambda r: r["shard"])
     for r in results:
         if "fault" in r:
